@@ -2,7 +2,7 @@
 
 import ast
 
-from ..model import AnalysisError, norm
+from ..model import Func, AnalysisError, norm
 from .common import find_calls, none_test, typer_for, walk_own
 from .exporter_rules import rule_init_stores, rule_optint_truthiness
 
@@ -13,7 +13,8 @@ EXPLANATION = (
     "J1 JsonExporter.export and .write obtain their data from the same callee applied to the node argument and pass "
     "**self.kwargs to json.dumps resp. json.dump (write also passes the file handle) and return/emit that result; "
     "JsonImporter.import_ and .read pass **self.kwargs to json.loads resp. json.load and hand the result to the same "
-    "callee. J2 every constructor option is stored under its own name and every stored option is read on the "
+    "callee; the text parsed is the argument itself (or the handle's read()), at most through a helper that only skips a "
+    "leading marker no JSON text can start with - any other alteration of the text is reported. J2 every constructor option is stored under its own name and every stored option is read on the "
     "export/import path. J3 maxlevel, when not None (None-test, not truthiness), is set on the dict exporter that is then "
     "used; the supplied dictexporter/dictimporter is used when given, a default DictExporter()/DictImporter() otherwise; "
     "the exported node / parsed data is passed unchanged. Not decided: value fidelity of json itself and of the dict "
@@ -63,6 +64,108 @@ def _fallback_var(func, cfg, field, default_cls):
                 if ok and not cfg.guards_of(cfg.nodes_of(first[0])[0]):
                     return var, first[0]
     return None, None
+
+
+_JSON_START = set(' \t\r\n{["-0123456789tfnIN')
+
+
+def _text_argument(p, f, call, argname, jf):
+    """how the text handed to json.load(s) derives from the function's argument: "ok" (the argument itself, its .read(), or
+    either through a helper that only skips a leading marker no JSON text can start with), ("<what>", node) when the text
+    is altered, "undecided" otherwise; None when the plain pinned form applies"""
+    a = call.args[0]
+    if isinstance(a, ast.Name) and a.id != argname:
+        # a local that is assigned more than once: every assignment must leave the text as it is
+        defs = [n_ for n_ in walk_own(f.node) if isinstance(n_, ast.Assign) and any(isinstance(t_, ast.Name) and t_.id == a.id for t_ in n_.targets)]
+        if len(defs) > 1:
+            for d_ in defs:
+                for x in ast.walk(d_.value):
+                    if isinstance(x, ast.Call) and isinstance(x.func, ast.Attribute) and x.func.attr in ("replace", "strip", "lstrip", "rstrip", "translate", "lower", "upper"):
+                        return (".%s()" % x.func.attr, x)
+            return "undecided"
+        from .common import resolve_local
+        r_ = resolve_local(f, a)  # a temporary (e.g. from an inlined helper) standing for the argument
+        if isinstance(r_, ast.Name) and r_.id == argname:
+            return None if norm(call.func) == jf else "ok"
+        a = r_ if r_ is not None else a
+    if norm(call.func) == jf and isinstance(a, ast.Name) and a.id == argname:
+        return None
+
+    def plain(e):
+        if isinstance(e, ast.Name) and e.id == argname:
+            return norm(call.func) == "json.loads" and jf == "json.loads"
+        if isinstance(e, ast.Call) and isinstance(e.func, ast.Attribute) and e.func.attr == "read" and not e.args and norm(e.func.value) == argname:
+            return jf == "json.load"
+        return False
+    if plain(a):
+        return "ok"
+    if isinstance(a, ast.Call) and len(a.args) == 1 and not a.keywords and plain(a.args[0]):
+        h = None
+        if isinstance(a.func, ast.Attribute) and norm(a.func.value) in (f.selfname, f.cls.name if f.cls else ""):
+            mem = f.cls.lookup(a.func.attr) if f.cls else None
+            h = mem if isinstance(mem, Func) else None
+        elif isinstance(a.func, ast.Name):
+            r = p.resolve_name(f.module, a.func.id)
+            h = r[1] if r is not None and r[0] == "func" else None
+        if h is None:
+            return "undecided"
+        return _prefix_skip_helper(h)
+    for x in ast.walk(a):
+        if isinstance(x, ast.Call) and isinstance(x.func, ast.Attribute) and x.func.attr in ("replace", "strip", "lstrip", "rstrip", "translate", "lower", "upper"):
+            return (".%s()" % x.func.attr, x)
+    return "undecided"
+
+
+def _prefix_skip_helper(h):
+    ps = [q for q in h.posparams if q != h.selfname]
+    if len(ps) != 1:
+        return "undecided"
+    t = ps[0]
+    consts = {k: v.value for k, v in (h.module.assigns or {}).items() if isinstance(v, ast.Constant) and isinstance(v.value, str)}
+
+    def const_of(e):
+        if isinstance(e, ast.Constant) and isinstance(e.value, str):
+            return e.value
+        if isinstance(e, ast.Name) and e.id in consts:
+            return consts[e.id]
+        return None
+    for x in walk_own(h.node):
+        if isinstance(x, ast.Call) and isinstance(x.func, ast.Attribute) and norm(x.func.value) == t \
+                and x.func.attr in ("replace", "strip", "lstrip", "rstrip", "translate", "lower", "upper"):
+            return (".%s() in %s" % (x.func.attr, h.qual), x)
+    vals = []
+    for r in walk_own(h.node):
+        if isinstance(r, ast.Return) and r.value is not None:
+            vals.extend([(r.value.body, r.value.test), (r.value.orelse, None)] if isinstance(r.value, ast.IfExp) else [(r.value, None)])
+    if not vals:
+        return "undecided"
+    for v, test in vals:
+        if isinstance(v, ast.Name) and v.id == t:
+            continue
+        # t[len(P):] / t[k:] under t.startswith(P)
+        if isinstance(v, ast.Subscript) and norm(v.value) == t and isinstance(v.slice, ast.Slice) and v.slice.upper is None and v.slice.step is None \
+                and v.slice.lower is not None:
+            guards = [test] if test is not None else []
+            for n_ in walk_own(h.node):
+                if isinstance(n_, ast.If) and any(y is v for st_ in n_.body for y in ast.walk(st_)):
+                    guards.append(n_.test)
+            pref = None
+            for g in guards:
+                for c_ in ast.walk(g):
+                    if isinstance(c_, ast.Call) and isinstance(c_.func, ast.Attribute) and c_.func.attr == "startswith" and norm(c_.func.value) == t \
+                            and len(c_.args) == 1 and const_of(c_.args[0]):
+                        pref = const_of(c_.args[0])
+            lo = v.slice.lower
+            k = None
+            if isinstance(lo, ast.Constant) and isinstance(lo.value, int):
+                k = lo.value
+            elif isinstance(lo, ast.Call) and norm(lo.func) == "len" and len(lo.args) == 1 and const_of(lo.args[0]) is not None:
+                k = len(const_of(lo.args[0]))
+            if pref and k == len(pref) and pref[0] not in _JSON_START:
+                continue
+            return ("a slice `%s` that is not the removal of a leading marker no JSON text starts with" % norm(v), v)
+        return "undecided"
+    return "ok"
 
 
 def run(ctx):
@@ -184,9 +287,21 @@ def run(ctx):
         outer = rets[0].value if len(rets) == 1 else None
         direct = find_calls(f, lambda c: norm(c.func) == jf)
         parsed_via = None
+        if not direct and jf == "json.load":
+            # json.load(fh) is json.loads(fh.read()): reading the handle and parsing the text is the same call sequence
+            direct = find_calls(f, lambda c: norm(c.func) == "json.loads")
         if len(direct) == 1:
             c = direct[0]
-            if _star_kwargs(c, f.selfname) and len(c.keywords) == 1 and [norm(a) for a in c.args] == [argname]:
+            verdict = _text_argument(p, f, c, argname, jf) if (_star_kwargs(c, f.selfname) and len(c.keywords) == 1 and len(c.args) == 1) else None
+            if verdict == "undecided":
+                ctx.extra.setdefault("undecided", []).append("J1: how %s prepares the text for %s (`%s`) is not followed" % (f.qual, norm(c.func), norm(c.args[0])[:60]))
+                ctx.inst("J1", f, c, "json call found (text preparation not followed)")
+            elif isinstance(verdict, tuple):
+                ctx.viol("J1", f, verdict[1], "the JSON text is altered before it is parsed (%s): what is imported is no longer what was "
+                         "exported" % verdict[0], construct="%s: text altered by %s" % (f.qual, verdict[0]))
+            elif verdict == "ok":
+                ctx.inst("J1", f, c, "%s(<the text of %s>, **self.kwargs)" % (norm(c.func), argname))
+            elif _star_kwargs(c, f.selfname) and len(c.keywords) == 1 and [norm(a) for a in c.args] == [argname]:
                 ctx.inst("J1", f, c, "%s(%s, **self.kwargs)" % (jf, argname))
             else:
                 ctx.viol("J1", f, c, "%s is not called as %s(%s, **self.kwargs)" % (jf, jf, argname), construct="%s: %s arguments" % (f.qual, jf))
@@ -238,6 +353,8 @@ def run(ctx):
     else:
         ctx.viol("J3", _imp, _imp.node, "__import does not return (self.dictimporter or DictImporter()).import_(<parsed data>)", construct="JsonImporter.__import")
     rule_optint_truthiness(ctx, typer, {JE, JI}, rule="J3")
+    if ctx.extra.get("undecided") and not ctx.new_findings():
+        raise AnalysisError("C11 " + "; ".join(ctx.extra["undecided"][:2]))
     ctx.floor("J1", 6)
     ctx.floor("J2", 6)
     ctx.floor("J3", 4)
